@@ -494,9 +494,14 @@ def validate_fit(res, tier, rng, only=None):
 def run(tier, seed):
     res = Result("C15", tier, seed, "model_checking")
     rng = random.Random(seed * 1000003 + 15)
+    import time
+    t0 = time.time()
     explore(res, tier)
+    t1 = time.time()
     validate_closed_forms(res, tier, rng)
+    t2 = time.time()
     validate_fit(res, tier, rng)
+    res.coverage["phase_wall_s"] = {"explore": round(t1 - t0, 1), "closed_forms": round(t2 - t1, 1), "fit_monitor": round(time.time() - t2, 1)}
     res.assume(
         "closed forms: parameters are integer matrices (entries 0..3, N <= 6, K <= 3) divided by 1, 2 or 4; a returned float times the "
         "(power of two) scale is converted to the nearest fraction with denominator <= %d, which must reproduce it within 1e-9*max(1,|x|); "
